@@ -152,30 +152,30 @@ def sumList : List Nat → Nat
   | x :: xs => x + sumList xs
 
 /-- the `while True:` loop of `_run_http_producer_turn`; the script is the fuel.
-    `tell` = `resp_buf.tell()`, `cum` = `cumulative_external_bytes`, `ups` = uploads so far (reversed), `n` = calls made -/
+    `tell` = `resp_buf.tell()`, `cum` = `cumulative_external_bytes`, `ups` = uploads so far, `n` = calls made -/
 def producerLoop (sh : Shape) (cfg : Cfg) (sentinel eos : Nat) :
     List Iter → (tell cum : Nat) → (ups : List Nat) → (n : Nat) → Turn
-  | [], tell, _, ups, n => ⟨.ok, tell + eos, ups.reverse, tell, 0, false, n⟩
+  | [], tell, _, ups, n => ⟨.ok, tell + eos, ups, tell, 0, false, n⟩
   | it :: rest, tell, cum, ups, n =>
-    if it.raises then ⟨.errMethod, tell + it.errWire + eos, ups.reverse, tell, it.errWire, false, n + 1⟩
+    if it.raises then ⟨.errMethod, tell + it.errWire + eos, ups, tell, it.errWire, false, n + 1⟩
     else
       let predicted := predictColl sh cfg it.out
       if cfg.storage && predicted != 0 && capHit sh.producerPreflight (cum + predicted) cfg.extCap then
-        ⟨.errExt, tell + it.errWire + eos, ups.reverse, tell, it.errWire, false, n + 1⟩
+        ⟨.errExt, tell + it.errWire + eos, ups, tell, it.errWire, false, n + 1⟩
       else
         let budget := if sh.producerPassesBudget then cfg.extCap.map (fun c => c - cum) else none
         match flushColl sh cfg budget it.out with
-        | .refused => ⟨.errExt, tell + it.errWire + eos, ups.reverse, tell, it.errWire, false, n + 1⟩
+        | .refused => ⟨.errExt, tell + it.errWire + eos, ups, tell, it.errWire, false, n + 1⟩
         | .inline w =>
-          if it.finished then ⟨.ok, tell + w + eos, ups.reverse, tell, w, false, n + 1⟩
+          if it.finished then ⟨.ok, tell + w + eos, ups, tell, w, false, n + 1⟩
           else if capHit sh.producerContinue (tell + w) cfg.wireCap then
             producerLoop sh cfg sentinel eos rest (tell + w) cum ups (n + 1)
-          else ⟨.ok, tell + w + sentinel + eos, ups.reverse, tell, w, true, n + 1⟩
+          else ⟨.ok, tell + w + sentinel + eos, ups, tell, w, true, n + 1⟩
         | .uploaded w up =>
-          if it.finished then ⟨.ok, tell + w + eos, (up :: ups).reverse, tell, w, false, n + 1⟩
+          if it.finished then ⟨.ok, tell + w + eos, (ups ++ [up]), tell, w, false, n + 1⟩
           else if capHit sh.producerContinue (tell + w) cfg.wireCap then
-            producerLoop sh cfg sentinel eos rest (tell + w) (cum + up) (up :: ups) (n + 1)
-          else ⟨.ok, tell + w + sentinel + eos, (up :: ups).reverse, tell, w, true, n + 1⟩
+            producerLoop sh cfg sentinel eos rest (tell + w) (cum + up) (ups ++ [up]) (n + 1)
+          else ⟨.ok, tell + w + sentinel + eos, (ups ++ [up]), tell, w, true, n + 1⟩
 
 /-- `_run_http_producer_turn` (`pre` = schema message + sink logs) -/
 def producerTurn (sh : Shape) (cfg : Cfg) (pre sentinel eos : Nat) (script : List Iter) : Turn :=
